@@ -8,48 +8,45 @@
  * sequence of program points (control flow is deterministic given the decisions; the primitives below
  * make no indirect calls except where stated), so equal decision sequences <=> equal control flow.
  *
- * Self-composition: run 1 records its decisions into ct_t1, run 2 into ct_t2.  No hashing: the
- * comparison is exact.
- *   CT_RUN1(call);  CT_RUN2(call);  CT_SAME("text")
- * asserts: same number of decisions, every decision equal, recorder did not overflow.
+ * Self-composition, exact, in ghost-index form: ct_w is a decision NUMBER chosen once per harness run by
+ * the verifier (nondeterministic, never assigned afterwards).  Run 1 remembers the direction of its
+ * decision number ct_w in ct_d1, run 2 in ct_d2 (2 = that run had fewer decisions).  "Same number of
+ * decisions and ct_d1 == ct_d2 for every ct_w" is equality of the two decision sequences; no hashing,
+ * no capacity limit.  (A shift-register recorder was tried first: it is just as exact but makes the
+ * failing case - a real secret-dependent branch - very expensive for the solver.)
+ *   CT_RUN1(call);  CT_RUN2(call);  CT_SAME("text")      or  CT2("text", call1, call2)
  *
- * Vacuity guard: CT_CANARY() runs a one-branch function on two independent inputs; its traces MUST be
- * able to differ.  It is a REACH witness, so a unit built without the instrumentation is reported
- * broken (exit 2), not passing. */
+ * Vacuity guard: CT_CANARY() (first statement of every entry; it also draws ct_w) runs a one-branch
+ * function on two independent inputs; its traces MUST be able to differ.  It is a REACH witness, so a
+ * unit built without the instrumentation is reported broken (exit 2), not passing. */
 #ifndef VERIF_CT_H
 #define VERIF_CT_H
-#ifndef CT_MAX
-#define CT_MAX 4096
-#endif
-/* The trace of a run is kept as a CT_MAX-bit shift register plus a decision counter: injective for
- * every trace of at most CT_MAX decisions (ct_ovf records a longer one).  Shifts by one are wiring and
- * path merges are multiplexers, so symbolic PUBLIC parameters (lengths) stay cheap. */
-typedef unsigned __CPROVER_bitvector[CT_MAX] ct_reg;
-ct_reg ct_t1, ct_t2;
-unsigned ct_n, ct_n1;
-unsigned char ct_mode, ct_ovf;
+unsigned ct_w;                    /* ghost: watched decision number */
+unsigned ct_n, ct_n1;             /* decisions so far in this run / total of run 1 */
+unsigned char ct_mode;            /* 0: run 1, 1: run 2 */
+unsigned char ct_d1, ct_d2;       /* direction of decision number ct_w in run 1 / run 2; 2 = none */
 
 /* branch-free on purpose (leak is itself exempt from instrumentation; keeps symex linear) */
 void leak(const char *id) {
-    ct_reg d = (ct_reg)(id[0] == 't');            /* "taken" / "not-taken" */
-    ct_ovf |= (unsigned char)(ct_n >= CT_MAX);
-    ct_t1 = ct_mode ? ct_t1 : ((ct_t1 << 1) | d);   /* run 1 */
-    ct_t2 = ct_mode ? ((ct_t2 << 1) | d) : ct_t2;   /* run 2 */
+    unsigned char d = (unsigned char)(id[0] == 't');            /* "taken" / "not-taken" */
+    unsigned char hit = (unsigned char)(ct_n == ct_w);
+    ct_d1 = (hit & !ct_mode) ? d : ct_d1;
+    ct_d2 = (hit & ct_mode) ? d : ct_d2;
     ct_n++;
 }
 /* plain blocks, no do{}while(0): goto-cc turns `while (0)` into a conditional goto that would itself
  * be instrumented and counted */
-#define CT_RESET() { ct_n = 0; ct_n1 = 0; ct_mode = 0; ct_ovf = 0; ct_t1 = 0; ct_t2 = 0; }
+#define CT_RESET() { ct_n = 0; ct_n1 = 0; ct_mode = 0; ct_d1 = 2; ct_d2 = 2; }
 #define CT_RUN1(call) { CT_RESET() call; ct_n1 = ct_n; ct_n = 0; ct_mode = 1; }
 #define CT_RUN2(call) { call; ct_mode = 0; }
-#define CT_EQUAL (ct_n == ct_n1 && ct_t1 == ct_t2 && !ct_ovf)
-#define CT_SAME(text) { __CPROVER_assert(!ct_ovf, "C06 recorder: trace length within CT_MAX (harness sizing, not a property of the code)"); __CPROVER_assert(CT_EQUAL, text); }
+#define CT_EQUAL (ct_n == ct_n1 && ct_d1 == ct_d2)
+#define CT_SAME(text) __CPROVER_assert(CT_EQUAL, text)
 /* the usual pair: same public arguments, independent secret arguments */
 #define CT2(text, call1, call2) CT_RUN1(call1) CT_RUN2(call2) CT_SAME(text)
 
 static int ct_canary_fn(int x) { int r = 0; if (x) { r = 1; } return r; }
-#define CT_CANARY() { INPUT(int, ct_cx); INPUT(int, ct_cy); \
+#define CT_CANARY() { INPUT(unsigned, ct_watch); INPUT(int, ct_cx); INPUT(int, ct_cy); ct_w = ct_watch; \
     CT_RUN1(ct_canary_fn(ct_cx)) CT_RUN2(ct_canary_fn(ct_cy)) \
     __CPROVER_assert(ct_n1 == 1 && ct_n == 1, "C06 recorder: the one-branch canary yields exactly one decision per run"); \
-    if (ct_t1 != ct_t2) REACH("branch instrumentation is live (canary traces can differ)"); }
+    if (ct_d1 != ct_d2) REACH("branch instrumentation is live (canary traces can differ)"); }
 #endif
